@@ -41,22 +41,23 @@ theorem C03_rows_exact (r : Run ℝ) (e maxRange step adv : ℝ) (fuel sf : Nat)
       (rows.getD 0 default).height = (initialState r e).pos.y * 12 ∧
       (rows.getD 0 default).velocity = (initialState r e).vel.mag / 3.2808399 ∧
       (∀ k, k ≤ K → (rows.getD k default).flag.range = true) :=
-  rows_exact r e maxRange step fuel sf rows hstep hrange hcs hfwd h
+  rows_exact r e maxRange step adv fuel sf rows hstep hrange hcs hadv hfwd h
 
 /-- Non-vacuity of `C03_rows_exact`: its hypotheses are jointly satisfiable (run `rEx` of `BC/Lemmas/C03Ex.lean`:
     no drag, no gravity, unit speed along x, unit advance; range 1, step 1). -/
-example : ∃ (r : Run ℝ) (e maxRange step : ℝ) (fuel sf : Nat) (rows : List (Row ℝ)),
-    0 < step ∧ step ≤ maxRange ∧ 0 < r.cfg.calcStep ∧ Forward r e (minOf r.cfg.calcStep step) ∧
+example : ∃ (r : Run ℝ) (e maxRange step adv : ℝ) (fuel sf : Nat) (rows : List (Row ℝ)),
+    0 < step ∧ step ≤ maxRange ∧ 0 < r.cfg.calcStep ∧ adv ≤ step ∧ Forward r e adv ∧
     integrate r e maxRange step fRANGE 0 fuel sf = .ok rows := by
   obtain ⟨rows, h⟩ := integrate_ex 1 1 3 0 (by norm_num) (by norm_num) (by norm_num)
-  exact ⟨rEx, 0, 1, 1, 4, 0, rows, by norm_num, le_refl _, by rw [calcStep_ex]; norm_num,
-    fwd_ex _ (one_le_minOf_ex (le_refl _)), h⟩
+  exact ⟨rEx, 0, 1, 1, 1, 4, 0, rows, by norm_num, le_refl _, by rw [calcStep_ex]; norm_num, le_refl _,
+    fwd_ex 1 (le_refl _), h⟩
 
 /-- **C03_loop_exit** (full): the loop stops exactly when the current state lies beyond `range + min_step` AND the
     last state handed to the filter had already reached the range (`last_x ≥ maximum_range`); otherwise it goes on. -/
 theorem C03_loop_exit_no_record (r : Run ℝ) (ff : Flags) (sf : Nat) (bound maxRange : ℝ) (fuel : Nat) (l : LoopSt ℝ)
     (hx : bound < l.s.pos.x) (hlast : maxRange ≤ l.lastX) : loop r ff sf bound maxRange (fuel + 1) l = .ok l := by
-  sorry
+  unfold loop
+  rw [if_neg (by rw [not_or, not_le, not_lt]; exact ⟨hx, hlast⟩)]
 
 /-- **C03_time_step_gap** (full, one-step form): with a time step `τ > 0`, whenever more than `τ` has elapsed
     since the last record and the distance trigger does not fire, the current state is recorded (flag RANGE):
@@ -87,8 +88,10 @@ theorem C03_default_step (r : Run ℝ) (e maxRange : ℝ) (fuel sf : Nat) (rows 
     rows.length = 11 ∧ ∀ k, k ≤ 10 → (rows.getD k default).distance = (k : ℝ) * (maxRange / 10) * 12 := by
   have hstep : 0 < maxRange / 10 := by linarith
   obtain ⟨K, _, hlen, hdist, hlo, hhi, _⟩ :=
-    C03_rows_exact r e maxRange (maxRange / 10) fuel sf rows hstep (by linarith) hcs hfwd h
+    C03_rows_exact r e maxRange (maxRange / 10) adv fuel sf rows hstep (by linarith) hcs hadv.le hfwd h
   have hmin : minOf r.cfg.calcStep (maxRange / 10) ≤ r.cfg.calcStep := minOf_le_left _ _
+  have hmax : max adv (minOf r.cfg.calcStep (maxRange / 10)) < maxRange / 10 :=
+    max_lt hadv (lt_of_le_of_lt hmin hsmall)
   have h1 : (10 : ℝ) < (K : ℝ) + 1 := by
     by_contra hcon
     have : (K : ℝ) + 1 ≤ 10 := not_lt.mp hcon
@@ -104,12 +107,12 @@ theorem C03_default_step (r : Run ℝ) (e maxRange : ℝ) (fuel sf : Nat) (rows 
   exact ⟨hlen, hdist⟩
 
 /-- Non-vacuity of `C03_default_step` (run `rEx`, range 20, hence step 2 > advance 1). -/
-example : ∃ (r : Run ℝ) (e maxRange : ℝ) (fuel sf : Nat) (rows : List (Row ℝ)),
+example : ∃ (r : Run ℝ) (e maxRange : ℝ) (fuel sf : Nat) (rows : List (Row ℝ)) (adv : ℝ),
     0 < maxRange ∧ 0 < r.cfg.calcStep ∧ r.cfg.calcStep < maxRange / 10 ∧
-    Forward r e (minOf r.cfg.calcStep (maxRange / 10)) ∧
+    adv < maxRange / 10 ∧ Forward r e adv ∧
     integrate r e maxRange (maxRange / 10) fRANGE 0 fuel sf = .ok rows := by
   obtain ⟨rows, h⟩ := integrate_ex 20 (20 / 10) 22 0 (by norm_num) (by norm_num) (by norm_num)
-  exact ⟨rEx, 0, 20, 23, 0, rows, by norm_num, by rw [calcStep_ex]; norm_num, by rw [calcStep_ex]; norm_num,
-    fwd_ex _ (one_le_minOf_ex (by norm_num)), h⟩
+  exact ⟨rEx, 0, 20, 23, 0, rows, 1, by norm_num, by rw [calcStep_ex]; norm_num, by rw [calcStep_ex]; norm_num,
+    by norm_num, fwd_ex 1 (le_refl _), h⟩
 
 end BC.Props.C03
